@@ -19,8 +19,11 @@
    - Basic/Dynamic/Object/Match/Length/CheckSum attribute objects are not shared in an
      observable way (the only writes go to objects created for the field at hand).
 
-   Panics.  Every nil dereference / failed type assertion the code can reach is an
-   explicit [RPanic site]; site = innermost function of fin-protoc on the panicking stack.
+   Panics.  Every type assertion / pointer dereference that the Go code does not guard is an explicit
+   [RPanic site] (site = innermost function of fin-protoc on the panicking stack); Proofs/VisitorProofs.v
+   shows that none of them is reachable (visit_never_panics).  What used to panic (padding on a field
+   that is no fixed string, @lengthOf/@calculatedFrom before an object field, a MetaData entry without
+   type, an undeclared length target) is a diagnostic in the code and in the model.
 
    Columns are not modelled (the visitor stores the lexer's final column everywhere). *)
 From Coq Require Import String Ascii NArith Bool Arith List.
@@ -165,8 +168,14 @@ Inductive dkind :=
 | DK_UnknownPacket    (* model.go ResolveDependencies *)
 | DK_LenNotRoot       (* VisitPacketDefinition *)
 | DK_LenDup           (* VisitPacketDefinition *)
-| DK_DupMatchKey      (* VisitMatchFieldDeclaration (dead: pairsMap is never written) *)
-| DK_UnexpectedField. (* VisitFieldDefinition default branch (dead: the six alternatives are all handled) *)
+| DK_DupMatchKey      (* VisitMatchFieldDeclaration *)
+| DK_UnexpectedField  (* VisitFieldDefinition default branch (dead: the six alternatives are all handled) *)
+| DK_UnknownMeta      (* VisitPacket: ref-declaration of a MetaData type that is not there *)
+| DK_PadNotFixed      (* VisitFieldDefinitionWithAttribute: padding attribute on a field that is no fixed string *)
+| DK_AttrOnObject     (* VisitFieldDefinitionWithAttribute: @lengthOf / @calculatedFrom before an object field *)
+| DK_UnknownLenTarget (* VisitPacketDefinition, second loop *)
+| DK_UnknownMatchKey  (* VisitPacketDefinition, second loop; VisitInerObjectField *)
+| DK_DupField.        (* VisitPacketDefinition, first loop; VisitInerObjectField *)
 
 Record diag := mkDiag { d_line : nat; d_kind : dkind; d_msg : string }.
 
@@ -286,9 +295,15 @@ Definition add_meta (s : vst) (m : vmeta) : vst :=
 Definition visit_meta_item (s : vst) (i : meta_item) : vst :=
   match i with
   | MIRef d =>
-      (* VisitRefMetaDataDeclaration: MetaDataMap[typ].Attr, nil when typ is not (yet) there *)
+      (* VisitRefMetaDataDeclaration: MetaDataMap[typ].Attr, nil when typ is not (yet) there; VisitPacket reports the
+         nil and records the entry all the same *)
       let a := match find_meta (s_metas s) (p_text (rm_typ d)) with Some m => vm_attr m | None => VANil end in
-      add_meta s (mkVMeta (p_text (rm_name d)) a (opt_text (rm_doc d)) (start_line (rm_span d)))
+      let s1 := match a with
+                | VANil => add_diag s (mkDiag (start_line (rm_span d)) DK_UnknownMeta
+                                         ("Unknown metadata type " ++ p_text (rm_typ d) ++ " for " ++ p_text (rm_name d)))
+                | _ => s
+                end in
+      add_meta s1 (mkVMeta (p_text (rm_name d)) a (opt_text (rm_doc d)) (start_line (rm_span d)))
   | MIDecl d =>
       let '(a, st) := meta_decl_attr d (s_store s) in
       add_meta (set_store s st) (mkVMeta (p_text (md_name d)) a (opt_text (md_doc d)) (start_line (md_span d)))
@@ -340,10 +355,16 @@ Definition add_option (s : vst) (name value : string) (line : nat) : vst :=
       end
   end.
 
+(* the value VisitPacket hands to AddOption: a STRING loses its quotes, a basic type its long spelling, and the
+   six characters quote-backslash-x-0-0-quote become quote-NUL-quote *)
+Definition option_value (v : value) : string :=
+  let t := value_text v in
+  let t := match v with VString _ _ => trim_quotes t | _ => t end in
+  let t := match v with VType _ (TyBasic _ _) => BModel.get_basic_type t | _ => t end in
+  if String.eqb t "'\x00'" then nul_pad_char else t.
+
 Definition visit_option_decl (s : vst) (d : option_decl) : vst :=
-  let v := value_text (od_value d) in
-  let v := match od_value d with VString _ _ => trim_quotes v | _ => v end in
-  add_option s (p_text (od_name d)) v (start_line (od_span d)).
+  add_option s (p_text (od_name d)) (option_value (od_value d)) (start_line (od_span d)).
 
 Definition visit_option_def (s : vst) (d : option_def) : vst := fold_left visit_option_decl (op_decls d) s.
 
@@ -364,15 +385,14 @@ Definition visit_match_pair (p : match_pair) : list vpair :=
           (map mk (filter (fun k => Nat.eqb (p_type k) T_STRING) (key_items l)))
   end.
 
-(* the duplicate check of VisitMatchFieldDeclaration: pairsMap is created empty and never
-   written, so "exists" is never true *)
+(* the duplicate check of VisitMatchFieldDeclaration; pairs_map: the keys seen so far *)
 Fixpoint match_dup_loop (pairs : list vpair) (pairs_map : list string) : list diag :=
   match pairs with
   | [] => []
   | p :: r =>
       if mem (vp_key p) pairs_map
       then mkDiag (vp_line p) DK_DupMatchKey ("Duplicate match key: " ++ vp_key p) :: match_dup_loop r pairs_map
-      else match_dup_loop r pairs_map
+      else match_dup_loop r (vp_key p :: pairs_map)
   end.
 
 (* VisitMatchFieldDeclaration: Line (and Doc) are not set *)
@@ -381,44 +401,79 @@ Definition visit_match_field (d : match_field_decl) : vfield * list diag :=
   (mkVField (p_text (mf_name d)) (VAMatch (FRNew (p_text (mf_key d))) pairs) VLNone false "" 0%N 0,
    match_dup_loop pairs []).
 
-(* the type of a length / checksum field declaration *)
-Definition decl_type (site : string) (metas : list vmeta) (ty : option type_) (name : string) : res string :=
+(* the type of a length / checksum field declaration: the type of the MetaData entry of the field's NAME when that
+   entry has an attribute *)
+Definition decl_type (metas : list vmeta) (ty : option type_) (name : string) : string :=
   let typ := match ty with Some t => type_text t | None => name end in
   match find_meta metas name with
   | Some m =>
       (* MetaDataMap[name].Attr.GetType() *)
       match vm_attr m with
-      | VANil => RPanic site
-      | VABasic t => ROk (BModel.get_basic_type t)
-      | VAFixed _ | VADyn => ROk "string"
-      | _ => ROk typ    (* MetaData attributes are basic, fixed, dynamic or nil *)
+      | VABasic t => BModel.get_basic_type t
+      | VAFixed _ | VADyn => "string"
+      | _ => typ    (* nil: not consulted (MetaData attributes are basic, fixed, dynamic or nil) *)
       end
-  | None => ROk typ
+  | None => typ
   end.
 
-Definition visit_length_field (metas : list vmeta) (d : length_field_decl) : res vfield :=
+Definition visit_length_field (metas : list vmeta) (d : length_field_decl) : vfield :=
   let name := p_text (lf_name d) in
-  match decl_type site_lenfield metas (lf_type d) name with
-  | RPanic e => RPanic e
-  | ROk typ =>
-      ROk (mkVField name (VALen (FRNew (p_text (lo_from (lf_length_of d)))) typ) VLNone false
-                    (opt_text (lf_doc d)) 0%N (start_line (lf_span d)))
-  end.
+  mkVField name (VALen (FRNew (p_text (lo_from (lf_length_of d)))) (decl_type metas (lf_type d) name)) VLNone false
+           (opt_text (lf_doc d)) 0%N (start_line (lf_span d)).
 
-Definition visit_checksum_field (metas : list vmeta) (d : checksum_field_decl) : res vfield :=
+Definition visit_checksum_field (metas : list vmeta) (d : checksum_field_decl) : vfield :=
   let name := p_text (ck_name d) in
-  match decl_type site_checksum metas (ck_type d) name with
-  | RPanic e => RPanic e
-  | ROk typ =>
-      ROk (mkVField name (VACheck (p_text (cf_from (ck_calculated_from d))) typ) VLNone false
-                    (opt_text (ck_doc d)) 0%N (start_line (ck_span d)))
-  end.
+  mkVField name (VACheck (p_text (cf_from (ck_calculated_from d))) (decl_type metas (ck_type d) name)) VLNone false
+           (opt_text (ck_doc d)) 0%N (start_line (ck_span d)).
 
 (* metaDataDeclarationToField *)
 Definition meta_decl_field (d : meta_decl) (rep : bool) (store : list fcell) : vfield * list fcell :=
   let '(a, st) := meta_decl_attr d store in
   let doc := match md_doc d with Some t => strip_ends (p_text t) | None => "" end in
   (mkVField (p_text (md_name d)) a VLNone rep doc 0%N (start_line (md_span d)), st).
+
+(* VisitInerObjectField, after the sub-fields are visited: a match field selects on a field of the same object
+   (fls: the sub-fields with the lines of their definitions; names: the names of all of them) *)
+Fixpoint inline_key_diags (fls : list (vfield * nat)) (names : list string) : list diag :=
+  match fls with
+  | [] => []
+  | (f, line) :: r =>
+      match vf_attr f with
+      | VAMatch key _ =>
+          match fref_name key with
+          | Some k =>
+              if mem k names then inline_key_diags r names
+              else mkDiag line DK_UnknownMatchKey ("Unknown match key field " ++ k ++ " for field " ++ vf_name f)
+                   :: inline_key_diags r names
+          | None => inline_key_diags r names
+          end
+      | _ => inline_key_diags r names
+      end
+  end.
+
+(* names[k] of VisitInerObjectField: the LAST sub-field of that name *)
+Fixpoint last_index (subs : list vfield) (k : string) (i : nat) (acc : option nat) : option nat :=
+  match subs with
+  | [] => acc
+  | f :: r => last_index r k (S i) (if String.eqb k (vf_name f) then Some i else acc)
+  end.
+
+(* a match field of an inline object is linked to its key field when there is one *)
+Definition link_key (subs : list vfield) (f : vfield) : vfield :=
+  match vf_attr f with
+  | VAMatch key pairs =>
+      match fref_name key with
+      | Some k => match last_index subs k 0 None with
+                  | Some j => set_attr f (VAMatch (FRIdx j k) pairs)
+                  | None => f
+                  end
+      | None => f
+      end
+  | _ => f
+  end.
+
+Definition dup_field_diag (line : nat) (fname pname : string) : diag :=
+  mkDiag line DK_DupField ("Duplicate field definition for " ++ fname ++ " in packet " ++ pname).
 
 (* VisitFieldDefinition (with VisitInerObjectField) *)
 Fixpoint visit_field_def (metas : list vmeta) (f : field_def) (store : list fcell) {struct f}
@@ -436,29 +491,32 @@ Fixpoint visit_field_def (metas : list vmeta) (f : field_def) (store : list fcel
       match decl with
       | InerObjectDecl _ nm _ fields _ =>
           let name := p_text nm in
-          match (fix go (l : list field_def) (store : list fcell) {struct l} : res (list vfield * list fcell * list diag) :=
+          (* the first loop: visit, report a repeated name, record the name *)
+          match (fix go (l : list field_def) (store : list fcell) (names : list string) {struct l}
+                   : res (list vfield * list fcell * list diag) :=
                    match l with
                    | [] => ROk ([], store, [])
                    | x :: r =>
                        match visit_field_def metas x store with
                        | RPanic e => RPanic e
                        | ROk (v, st1, ds1) =>
-                           match go r st1 with
+                           let dup := if mem (vf_name v) names then [dup_field_diag (start_line (fd_span x)) (vf_name v) name] else [] in
+                           match go r st1 (vf_name v :: names) with
                            | RPanic e => RPanic e
-                           | ROk (vs, st2, ds2) => ROk (v :: vs, st2, app ds1 ds2)
+                           | ROk (vs, st2, ds2) => ROk (v :: vs, st2, app ds1 (app dup ds2))
                            end
                        end
-                   end) fields store with
+                   end) fields store [] with
           | RPanic e => RPanic e
           | ROk (subs, st1, ds) =>
-              let p := mkVPacket name false None subs [] [] (start_line sp) in
-              ROk (mkVField name (VAObj true name (Some name) (Some p)) VLNone (is_some rep) "" 0%N (start_line sp), st1, ds)
+              let keys := inline_key_diags (combine subs (map (fun x => start_line (fd_span x)) fields)) (map vf_name subs) in
+              let p := mkVPacket name false None (map (link_key subs) subs) [] [] (start_line sp) in
+              ROk (mkVField name (VAObj true name (Some name) (Some p)) VLNone (is_some rep) "" 0%N (start_line sp), st1,
+                   app ds keys)
           end
       end
-  | LengthField _ d =>
-      match visit_length_field metas d with RPanic e => RPanic e | ROk v => ROk (v, store, []) end
-  | CheckSumField _ d =>
-      match visit_checksum_field metas d with RPanic e => RPanic e | ROk v => ROk (v, store, []) end
+  | LengthField _ d => ROk (visit_length_field metas d, store, [])
+  | CheckSumField _ d => ROk (visit_checksum_field metas d, store, [])
   | MetaField _ rep d => let '(v, st) := meta_decl_field d (is_some rep) store in ROk (v, st, [])
   | MatchField _ d _ => let '(v, ds) := visit_match_field d in ROk (v, store, ds)
   end.
@@ -469,38 +527,56 @@ Definition set_cell_pad (store : list fcell) (c : nat) (p : BModel.padding) : li
   | None => store
   end.
 
-(* one iteration of the attribute loop of VisitFieldDefinitionWithAttribute *)
-Definition apply_attr (a : field_attribute) (f : vfield) (store : list fcell) : res (vfield * list fcell) :=
+(* @lengthOf / @calculatedFrom take over the type of the field: refused on a field without attribute and on an
+   object field that is not inline *)
+Definition is_plain_object (a : vattr) : bool :=
+  match a with VANil | VAObj false _ _ _ => true | _ => false end.
+
+Definition attr_on_object_diag (line : nat) (attr_name fname : string) : diag :=
+  mkDiag line DK_AttrOnObject ("Attribute " ++ attr_name ++ " is not allowed on object field " ++ fname).
+
+(* one iteration of the attribute loop of VisitFieldDefinitionWithAttribute; line: first line of the declaration *)
+Definition apply_attr (line : nat) (a : field_attribute) (f : vfield) (store : list fcell)
+  : res (vfield * list fcell * list diag) :=
   match a with
   | FACalculatedFrom _ c =>
-      match field_get_type (vf_attr f) with
-      | None => RPanic site_gettype
-      | Some t => ROk (set_attr f (VACheck (p_text (cf_from c)) t), store)
-      end
+      if is_plain_object (vf_attr f) then ROk (f, store, [attr_on_object_diag line "@calculatedFrom" (vf_name f)])
+      else match field_get_type (vf_attr f) with
+           | None => RPanic site_gettype
+           | Some t => ROk (set_attr f (VACheck (p_text (cf_from c)) t), store, [])
+           end
   | FALengthOf _ l =>
-      match field_get_type (vf_attr f) with
-      | None => RPanic site_gettype
-      | Some t => ROk (set_attr f (VALen (FRNew (p_text (lo_from l))) t), store)
-      end
+      if is_plain_object (vf_attr f) then ROk (f, store, [attr_on_object_diag line "@lengthOf" (vf_name f)])
+      else match field_get_type (vf_attr f) with
+           | None => RPanic site_gettype
+           | Some t => ROk (set_attr f (VALen (FRNew (p_text (lo_from l))) t), store, [])
+           end
   | FAPadding _ p =>
       let pc := match pa_padding p with Some t => p_text t | None => "' '" end in
       let pc := if String.eqb pc "'\x00'" then nul_pad_char else pc in
       match vf_attr f with
       | VAFixed c =>
           (* writes the Padding member of the (possibly shared) object *)
-          ROk (f, set_cell_pad store c (BModel.mkPad pc (containsb "left" (p_text (pa_attr p)))))
-      | _ => RPanic site_attr
+          ROk (f, set_cell_pad store c (BModel.mkPad pc (containsb "left" (p_text (pa_attr p)))), [])
+      | _ =>
+          ROk (f, store, [mkDiag line DK_PadNotFixed
+                            ("Padding attribute can only be declared on a fixed string field: " ++ vf_name f)])
       end
-  | FATag _ t => ROk (set_tag f (atoi (p_text (ta_digits t))), store)
+  | FATag _ t => ROk (set_tag f (atoi (p_text (ta_digits t))), store, [])
   end.
 
-Fixpoint apply_attrs (l : list field_attribute) (f : vfield) (store : list fcell) : res (vfield * list fcell) :=
+Fixpoint apply_attrs (line : nat) (l : list field_attribute) (f : vfield) (store : list fcell)
+  : res (vfield * list fcell * list diag) :=
   match l with
-  | [] => ROk (f, store)
+  | [] => ROk (f, store, [])
   | a :: r =>
-      match apply_attr a f store with
+      match apply_attr line a f store with
       | RPanic e => RPanic e
-      | ROk (f1, st1) => apply_attrs r f1 st1
+      | ROk (f1, st1, ds1) =>
+          match apply_attrs line r f1 st1 with
+          | RPanic e => RPanic e
+          | ROk (f2, st2, ds2) => ROk (f2, st2, app ds1 ds2)
+          end
       end
   end.
 
@@ -510,17 +586,19 @@ Definition visit_field_with_attr (metas : list vmeta) (fw : field_with_attr) (st
   match visit_field_def metas (fw_def fw) store with
   | RPanic e => RPanic e
   | ROk (f, st1, ds) =>
-      match apply_attrs (fw_attrs fw) f st1 with
+      match apply_attrs (start_line (fw_span fw)) (fw_attrs fw) f st1 with
       | RPanic e => RPanic e
-      | ROk (f1, st2) => ROk (f1, st2, ds)
+      | ROk (f1, st2, ds2) => ROk (f1, st2, app ds ds2)
       end
   end.
 
 (* ------------------------------------------------------------------ packets *)
 
-(* the locals of VisitPacketDefinition, the store and the diagnostics added so far *)
+(* the locals of VisitPacketDefinition, the store and the diagnostics added so far;
+   pa_lines: declared[f] of the Go code, the first line of the declaration of each kept field *)
 Record pacc := mkPacc {
   pa_fields : list vfield;
+  pa_lines : list nat;
   pa_fmap : list (string * nat);
   pa_lenf : option nat;
   pa_mfs : list (string * list vpair);
@@ -531,10 +609,14 @@ Record pacc := mkPacc {
 Definition is_len_attr (a : vattr) : bool := match a with VALen _ _ => true | _ => false end.
 
 (* the body of the first loop, after the field has been visited (store, ds: what the visit left) *)
-Definition loop1_add (is_root : bool) (line : nat) (f : vfield) (acc : pacc) (store : list fcell) (ds : list diag) : pacc :=
+Definition loop1_add (pname : string) (is_root : bool) (line : nat) (f : vfield) (acc : pacc) (store : list fcell) (ds : list diag) : pacc :=
   let diags := app (pa_diags acc) ds in
   let keep (lenf : option nat) :=
     let i := length (pa_fields acc) in
+    let dup := match alookup (pa_fmap acc) (vf_name f) with
+               | Some _ => [dup_field_diag line (vf_name f) pname]
+               | None => []
+               end in
     let mfs := match vf_attr f with
                | VAMatch key pairs =>
                    match fref_name key with
@@ -543,100 +625,120 @@ Definition loop1_add (is_root : bool) (line : nat) (f : vfield) (acc : pacc) (st
                    end
                | _ => pa_mfs acc
                end in
-    mkPacc (snoc (pa_fields acc) f) (aset (pa_fmap acc) (vf_name f) i) lenf mfs store diags in
+    mkPacc (snoc (pa_fields acc) f) (snoc (pa_lines acc) line) (aset (pa_fmap acc) (vf_name f) i) lenf mfs store (app diags dup) in
   if is_len_attr (vf_attr f) then
     if negb is_root then
-      mkPacc (pa_fields acc) (pa_fmap acc) (pa_lenf acc) (pa_mfs acc) store
+      mkPacc (pa_fields acc) (pa_lines acc) (pa_fmap acc) (pa_lenf acc) (pa_mfs acc) store
              (snoc diags (mkDiag line DK_LenNotRoot "LengthOfField can only be declared in the root packet"))
     else match pa_lenf acc with
          | Some _ =>
-             mkPacc (pa_fields acc) (pa_fmap acc) (pa_lenf acc) (pa_mfs acc) store
+             mkPacc (pa_fields acc) (pa_lines acc) (pa_fmap acc) (pa_lenf acc) (pa_mfs acc) store
                     (snoc diags (mkDiag line DK_LenDup "Duplicate LengthOfField declaration"))
          | None => keep (Some (length (pa_fields acc)))
          end
   else keep (pa_lenf acc).
 
-Fixpoint loop1 (metas : list vmeta) (is_root : bool) (l : list field_with_attr) (acc : pacc) : res pacc :=
+Fixpoint loop1 (metas : list vmeta) (pname : string) (is_root : bool) (l : list field_with_attr) (acc : pacc) : res pacc :=
   match l with
   | [] => ROk acc
   | fw :: r =>
       match visit_field_with_attr metas fw (pa_store acc) with
       | RPanic e => RPanic e
-      | ROk (f, st, ds) => loop1 metas is_root r (loop1_add is_root (start_line (fw_span fw)) f acc st ds)
+      | ROk (f, st, ds) => loop1 metas pname is_root r (loop1_add pname is_root (start_line (fw_span fw)) f acc st ds)
       end
   end.
 
-Definition fmap_ref (fmap : list (string * nat)) (n : string) : fref :=
-  match alookup fmap n with Some i => FRIdx i n | None => FRNil end.
+(* the first half of an iteration of the second loop (the LenAttr assignments):
+   if lengthField != nil && f.Name == [TragetField of lengthField.Attr asserted to be a LengthFieldAttribute].Name *)
+Definition step_la (lenf : option nat) (i : nat) (fields : list vfield) (f : vfield) : res (list vfield) :=
+  match lenf with
+  | None => ROk fields
+  | Some li =>
+      match nth_error fields li with
+      | None => ROk fields
+      | Some lf =>
+          match vf_attr lf with
+          | VALen tgt lenty =>
+              match fref_name tgt with
+              | None => RPanic site_packetdef               (* nil TragetField *)
+              | Some tn =>
+                  if String.eqb (vf_name f) tn then
+                    let fields1 := upd_nth li (set_la lf (VLLenOf (vf_name lf))) fields in
+                    match nth_error fields1 i with
+                    | Some f1 => ROk (upd_nth i (set_la f1 (VLLen (Some tn) lenty)) fields1)
+                    | None => ROk fields1
+                    end
+                  else ROk fields
+              end
+          | _ => RPanic site_packetdef                      (* failed type assertion *)
+          end
+      end
+  end.
+
+(* the switch on the attribute of the field at hand: its new attribute and the diagnostics; line: declared[f] *)
+Definition step_attr (pmap : list string) (fmap : list (string * nat)) (line : nat) (fname : string) (a : vattr)
+  : res (vattr * list diag) :=
+  match a with
+  | VAObj false pn _ inlp => ROk (VAObj false pn (if mem pn pmap then Some pn else None) inlp, [])
+  | VALen tgt lenty =>
+      match fref_name tgt with
+      | None => RPanic site_packetdef
+      | Some tn =>
+          (* an undeclared target is reported and the placeholder object stays *)
+          let '(tgt', ds) := match alookup fmap tn with
+                             | Some j => (FRIdx j tn, [])
+                             | None => (tgt, [mkDiag line DK_UnknownLenTarget
+                                                ("Unknown length target " ++ tn ++ " for field " ++ fname)])
+                             end in
+          match field_get_type a with
+          | None => RPanic site_gettype
+          | Some t => ROk (VALen tgt' t, ds)
+          end
+      end
+  | VAMatch key pairs =>
+      match fref_name key with
+      | None => RPanic site_packetdef
+      | Some kn =>
+          match alookup fmap kn with
+          | Some j => ROk (VAMatch (FRIdx j kn) pairs, [])
+          | None => ROk (a, [mkDiag line DK_UnknownMatchKey ("Unknown match key field " ++ kn ++ " for field " ++ fname)])
+          end
+      end
+  | _ => ROk (a, [])
+  end.
 
 (* one iteration of the second loop, on the i-th field *)
-Definition loop2_step (pmap : list string) (fmap : list (string * nat)) (lenf : option nat)
-           (i : nat) (fields : list vfield) : res (list vfield) :=
+Definition loop2_step (pmap : list string) (fmap : list (string * nat)) (lenf : option nat) (lines : list nat)
+           (i : nat) (fields : list vfield) : res (list vfield * list diag) :=
   match nth_error fields i with
-  | None => ROk fields
+  | None => ROk (fields, [])
   | Some f =>
-      (* if lengthField != nil && f.Name == [TragetField of lengthField.Attr asserted to be a LengthFieldAttribute].Name *)
-      let r1 :=
-        match lenf with
-        | None => ROk fields
-        | Some li =>
-            match nth_error fields li with
-            | None => ROk fields
-            | Some lf =>
-                match vf_attr lf with
-                | VALen tgt lenty =>
-                    match fref_name tgt with
-                    | None => RPanic site_packetdef               (* nil TragetField *)
-                    | Some tn =>
-                        if String.eqb (vf_name f) tn then
-                          let fields1 := upd_nth li (set_la lf (VLLenOf (vf_name lf))) fields in
-                          match nth_error fields1 i with
-                          | Some f1 => ROk (upd_nth i (set_la f1 (VLLen (Some tn) lenty)) fields1)
-                          | None => ROk fields1
-                          end
-                        else ROk fields
-                    end
-                | _ => RPanic site_packetdef                      (* failed type assertion (unreachable) *)
-                end
-            end
-        end in
-      match r1 with
+      match step_la lenf i fields f with
       | RPanic e => RPanic e
       | ROk fields1 =>
           match nth_error fields1 i with
-          | None => ROk fields1
+          | None => ROk (fields1, [])
           | Some f1 =>
-              match vf_attr f1 with
-              | VAObj false pn _ inlp =>
-                  ROk (upd_nth i (set_attr f1 (VAObj false pn (if mem pn pmap then Some pn else None) inlp)) fields1)
-              | VALen tgt lenty =>
-                  match fref_name tgt with
-                  | None => RPanic site_packetdef
-                  | Some tn =>
-                      match field_get_type (vf_attr f1) with
-                      | None => RPanic site_gettype
-                      | Some t => ROk (upd_nth i (set_attr f1 (VALen (fmap_ref fmap tn) t)) fields1)
-                      end
-                  end
-              | VAMatch key pairs =>
-                  match fref_name key with
-                  | None => RPanic site_packetdef
-                  | Some kn => ROk (upd_nth i (set_attr f1 (VAMatch (fmap_ref fmap kn) pairs)) fields1)
-                  end
-              | _ => ROk fields1
+              match step_attr pmap fmap (nth i lines 0) (vf_name f1) (vf_attr f1) with
+              | RPanic e => RPanic e
+              | ROk (a, ds) => ROk (upd_nth i (set_attr f1 a) fields1, ds)
               end
           end
       end
   end.
 
-Fixpoint loop2 (pmap : list string) (fmap : list (string * nat)) (lenf : option nat)
-         (idx : list nat) (fields : list vfield) : res (list vfield) :=
+Fixpoint loop2 (pmap : list string) (fmap : list (string * nat)) (lenf : option nat) (lines : list nat)
+         (idx : list nat) (fields : list vfield) : res (list vfield * list diag) :=
   match idx with
-  | [] => ROk fields
+  | [] => ROk (fields, [])
   | i :: r =>
-      match loop2_step pmap fmap lenf i fields with
+      match loop2_step pmap fmap lenf lines i fields with
       | RPanic e => RPanic e
-      | ROk fields1 => loop2 pmap fmap lenf r fields1
+      | ROk (fields1, ds1) =>
+          match loop2 pmap fmap lenf lines r fields1 with
+          | RPanic e => RPanic e
+          | ROk (fields2, ds2) => ROk (fields2, app ds1 ds2)
+          end
       end
   end.
 
@@ -645,14 +747,14 @@ Fixpoint loop2 (pmap : list string) (fmap : list (string * nat)) (lenf : option 
 Definition visit_packet_def (metas : list vmeta) (pmap : list string) (d : packet_def) (store : list fcell)
   : res (vpacket * list fcell * list diag) :=
   let is_root := is_some (pd_root d) in
-  match loop1 metas is_root (pd_fields d) (mkPacc [] [] None [] store []) with
+  match loop1 metas (p_text (pd_name d)) is_root (pd_fields d) (mkPacc [] [] [] None [] store []) with
   | RPanic e => RPanic e
   | ROk acc =>
-      match loop2 pmap (pa_fmap acc) (pa_lenf acc) (seq 0 (length (pa_fields acc))) (pa_fields acc) with
+      match loop2 pmap (pa_fmap acc) (pa_lenf acc) (pa_lines acc) (seq 0 (length (pa_fields acc))) (pa_fields acc) with
       | RPanic e => RPanic e
-      | ROk fields =>
+      | ROk (fields, ds2) =>
           ROk (mkVPacket (p_text (pd_name d)) is_root (pa_lenf acc) fields (pa_fmap acc) (pa_mfs acc)
-                         (start_line (pd_span d)), pa_store acc, pa_diags acc)
+                         (start_line (pd_span d)), pa_store acc, app (pa_diags acc) ds2)
       end
   end.
 
@@ -684,31 +786,52 @@ Fixpoint visit_packets (l : list packet_def) (s : vst) : res vst :=
 
 (* ------------------------------------------------------------------ ResolveDependencies *)
 
-Definition resolve_field (pmap : list string) (fd : vfield * list diag) : vfield * list diag :=
-  let '(f, ds) := fd in
-  match vf_attr f with
-  | VAObj iner pn None inlp =>
-      if mem pn pmap then (set_attr f (VAObj iner pn (Some pn) inlp), ds)
-      else (f, snoc ds (mkDiag (vf_line f) DK_UnknownPacket ("Unknown packet type " ++ pn ++ " for field " ++ vf_name f)))
-  | _ => (f, ds)
+(* the packets the pairs of a match field select *)
+Definition pair_diags (pmap : list string) (fname : string) (pairs : list vpair) : list diag :=
+  flat_map (fun p => if mem (vp_value p) pmap then []
+                     else [mkDiag (vp_line p) DK_UnknownPacket ("Unknown packet type " ++ vp_value p ++ " for field " ++ fname)])
+           pairs.
+
+(* resolveFields, one field: the field as it is afterwards and the diagnostics it adds *)
+Fixpoint resolve_field (pmap : list string) (f : vfield) {struct f} : vfield * list diag :=
+  match f with
+  | mkVField n a la rep doc tag ln =>
+      match a with
+      | VAObj iner pn None inlp =>
+          if mem pn pmap then (mkVField n (VAObj iner pn (Some pn) inlp) la rep doc tag ln, [])
+          else (f, [mkDiag ln DK_UnknownPacket ("Unknown packet type " ++ pn ++ " for field " ++ n)])
+      | VAObj true pn (Some r) (Some (mkVPacket pn2 ro lf fs fm mf pl)) =>
+          (* an inline object: its fields are resolved in turn *)
+          let '(fs', ds) := (fix go (l : list vfield) : list vfield * list diag :=
+                               match l with
+                               | [] => ([], [])
+                               | x :: rest =>
+                                   let '(x', d1) := resolve_field pmap x in
+                                   let '(rest', d2) := go rest in
+                                   (x' :: rest', app d1 d2)
+                               end) fs in
+          (mkVField n (VAObj true pn (Some r) (Some (mkVPacket pn2 ro lf fs' fm mf pl))) la rep doc tag ln, ds)
+      | VAMatch key pairs => (f, pair_diags pmap n pairs)
+      | _ => (f, [])
+      end
   end.
 
-Fixpoint resolve_fields (pmap : list string) (fs : list vfield) (ds : list diag) : list vfield * list diag :=
+Fixpoint resolve_fields (pmap : list string) (fs : list vfield) : list vfield * list diag :=
   match fs with
-  | [] => ([], ds)
+  | [] => ([], [])
   | f :: r =>
-      let '(f1, ds1) := resolve_field pmap (f, ds) in
-      let '(r1, ds2) := resolve_fields pmap r ds1 in
-      (f1 :: r1, ds2)
+      let '(f1, d1) := resolve_field pmap f in
+      let '(r1, d2) := resolve_fields pmap r in
+      (f1 :: r1, app d1 d2)
   end.
 
-Fixpoint resolve_packets (pmap : list string) (ps : list vpacket) (ds : list diag) : list vpacket * list diag :=
+Fixpoint resolve_packets (pmap : list string) (ps : list vpacket) : list vpacket * list diag :=
   match ps with
-  | [] => ([], ds)
+  | [] => ([], [])
   | p :: r =>
-      let '(fs1, ds1) := resolve_fields pmap (vk_fields p) ds in
-      let '(r1, ds2) := resolve_packets pmap r ds1 in
-      (set_fields p fs1 :: r1, ds2)
+      let '(fs1, d1) := resolve_fields pmap (vk_fields p) in
+      let '(r1, d2) := resolve_packets pmap r in
+      (set_fields p fs1 :: r1, app d1 d2)
   end.
 
 (* ------------------------------------------------------------------ NewConfiguration *)
@@ -750,8 +873,8 @@ Definition phase_metas (t : pt) (s : vst) : vst := fold_left visit_meta_def (met
 Definition phase_options (t : pt) (s : vst) : vst := fold_left visit_option_def (options_of t) s.
 
 Definition finish (s : vst) : result :=
-  let '(ps, ds) := resolve_packets (packet_names (s_packets s)) (s_packets s) (s_diags s) in
-  mkResult (s_store s) (s_metas s) (s_options s) (new_configuration (s_options s)) ps (s_root s) ds.
+  let '(ps, ds) := resolve_packets (packet_names (s_packets s)) (s_packets s) in
+  mkResult (s_store s) (s_metas s) (s_options s) (new_configuration (s_options s)) ps (s_root s) (app (s_diags s) ds).
 
 Definition visit (t : pt) : outcome :=
   match visit_packets (packets_of t) (phase_options t (phase_metas t st0)) with
